@@ -21,6 +21,9 @@ pub trait HashObj: Send {
     fn finalize_fixed_box(self: Box<Self>) -> Vec<u8>;
     fn reset(&mut self);
     fn clone_box(&self) -> Box<dyn HashObj>;
+    /// Clone::clone_from(self, src) - src must be the same concrete type (returns false otherwise)
+    fn clone_from_obj(&mut self, src: &dyn HashObj) -> bool;
+    fn as_any(&self) -> &dyn std::any::Any;
     /// hook H2 (only with the verification cfg): the length counter, the hash's "clock"
     fn counter(&self) -> u128;
     fn set_counter(&mut self, v: u128);
@@ -70,6 +73,18 @@ where
     }
     fn clone_box(&self) -> Box<dyn HashObj> {
         Box::new(self.clone())
+    }
+    fn clone_from_obj(&mut self, src: &dyn HashObj) -> bool {
+        match src.as_any().downcast_ref::<D>() {
+            Some(s) => {
+                Clone::clone_from(self, s);
+                true
+            }
+            None => false,
+        }
+    }
+    fn as_any(&self) -> &dyn std::any::Any {
+        self
     }
     fn counter(&self) -> u128 {
         self.verif_get()
